@@ -17,8 +17,7 @@ ASSUMPTIONS = [
 ]
 
 
-def tail(c) -> str:
-    return (dotted(c.func) or "").split(".")[-1] if isinstance(c, ast.Call) else ""
+from ..astq import tail  # noqa: E402
 
 
 def _anc(node):
